@@ -1,11 +1,11 @@
 (* C20 - Resources go through the caller's URL fetcher; fetch failures degrade gracefully: property theorems only
    (models: model/C20Url.v, C20Fetch.v, C20Doc.v; proofs: proofs/C20_url.v, C20_fetch.v, C20_doc.v,
-   C20_absence.v).  The models are tied to /repo by the correspondence streams of harness/p_c20.py (url-join,
+   C20_absence.v, C20_logged.v).  The models are tied to /repo by the correspondence streams of harness/p_c20.py (url-join,
    consume-direct, docs); what the process opens besides the fetcher is a statement about system calls and is
    monitored (audit hooks), not proved. *)
 From Coq Require Import List String Bool Arith ZArith Permutation.
 Require Import WV.model.C20Url WV.model.C20Fetch WV.model.C20Doc.
-Require Import WV.proofs.C20_url WV.proofs.C20_fetch WV.proofs.C20_doc WV.proofs.C20_absence.
+Require Import WV.proofs.C20_url WV.proofs.C20_fetch WV.proofs.C20_doc WV.proofs.C20_absence WV.proofs.C20_logged.
 Import ListNotations.
 Open Scope string_scope.
 Open Scope list_scope.
@@ -168,3 +168,12 @@ Proof.
            (cache_ok_nil _ _) (cache_ok_nil _ _) (fun _ => att_ok_raise W fails u)).
 Qed.
 Print Assumptions C20_raise_equals_absence.
+
+(* every failure the library can notice is logged: for each fetch of a URL that fails detectably (any failure
+   of an image or font source; an exception or a foreign type for a sheet; an exception for an attachment) the
+   run has a log record naming that URL *)
+Theorem C20_failures_are_logged W fails c0 d : cache_ok W fails c0 ->
+  forall ch u, In (Fetch ch u) (snd (m_doc W fails c0 d)) -> detect fails ch u ->
+               exists lv, In (Log lv u) (snd (m_doc W fails c0 d)).
+Proof. exact (failures_are_logged W fails c0 d). Qed.
+Print Assumptions C20_failures_are_logged.
